@@ -199,7 +199,7 @@ UNITS = [
 VERIFIED_CALLEES = ()
 LEVEL = "other"
 TECHNIQUE = "contract-based deductive verification: protocol proof over ghost events (VCs from the real AST of save) + bounded fault enumeration as stand-in"
-LEVEL_TEXT = "under construction"
+LEVEL_TEXT = "Protocol proof over ghost events on the real save(): every open(p,'w') is preceded by check_overwrite on p and by Path(..., mode='fc') for p, happens only after validation (or skip_validation) and after the text to be written exists; a failure of validation/serialisation in single-file mode leaves no file opened (this refuted the shipped code: dump inside open; fixed). Multi-file all-or-nothing is refuted (sub-files are written one by one): known finding. Bounded: fault enumeration on real parsers with directory snapshots."
 LEVEL_NOTE = "under construction"
 EXPLANATION = "under construction"
 ASSUMPTIONS = []
